@@ -105,6 +105,7 @@ SHAPES = [
     "foo://:80/", "foo://u@:80/", "foo://u:p@/x", "mailto://u@:0", "//:", "//@", "//:@", "//@:?#", "foo://", "foo:///x", "http://[::1]", "http://[::1]:80/", "http://u:p@[fe80::1%eth0]:81/",
     "http://[2001:DB8:0:0:0:0:0:1]/", "svn://u@[vF.a:b]/P", "http://[v1.x]:81/", "http://é.com/é?é=é#é", "http://bücher.example:8080", "http://A_b.é/", "http://127.0.0.1:00080/",
     # a bracket INSIDE a bracketed host, a doubled opening bracket, a bracket in the userinfo next to a bracketed host
+    "http://[user:pw@example.com]/", "http://[u:p@]example.com/", "foo://[:@h]:8042/p", "foo://[a:b@c:d]/",
     "foo://[v1.a[b]/", "foo://[v1.[a]/", "http://[fe80::1%eth[]/", "http://[[::1]:8080/p", "http://u:p@[v1.x:y[]:81/", "foo://[a@[::1]:80/", "foo://[::1]@example.com:80/", "foo://[v1.a]b]/",
     "http://XN--MNCHEN-3YA.DE/p", "https://www.Xn--mnchen-3ya.de:443", "http://u:p@XN--80AAF8A3A.XN--J1AMH:8080/", "http://XN--ZZZ/", "http://xn--mnchen-3ya.de/", "//EXAMPLE.COM.", "http://[FE80::A%25ETH1]/",
     "", "/", "a", "a/b?c#d", "?q", "#f", "/a/../b", "http://h/a/../b/./c", "http://h/%2e%2E/x", "mailto:user@example.com", "foo:a:b", "http:x", "http:/x", "http://h?q", "http://h#f",
